@@ -166,8 +166,8 @@ func New() *Sched {
 		ChooseFree: true,
 		// a tool safeguard against a thread blocked outside the shims, never an oracle: long enough that a thread
 		// which is merely starved on a loaded machine (seen: 20 s at load 90 on 16 cores) does not trip it
-		Watchdog:   5 * time.Minute,
-		randState:  0x9E3779B97F4A7C15,
+		Watchdog:  5 * time.Minute,
+		randState: 0x9E3779B97F4A7C15,
 	}
 }
 
